@@ -1345,9 +1345,9 @@ class Store:
             for key, topology in insertion['topology'].items()]
         topology_updates.extend(topology_paths)
 
-        flow_paths = [
-            (root + (key,), flow)
-            for key, flow in insertion.get('flow', {}).items()]
+        # one entry per step, like process_paths and step_paths above:
+        # the engine looks the dependencies up by the path of the step
+        flow_paths = dict_to_paths(root, insertion.get('flow') or {})
         flow_updates.extend(flow_paths)
 
         self._apply_subschema_path(path)
